@@ -3,8 +3,14 @@
 -/
 import Rbgp.Accept.Proofs
 import Rbgp.Accept.ProofsNet
+import Rbgp.Accept.ProofsNeg
+import Rbgp.Accept.ProofsCfg
+import Rbgp.Accept.ProofsHist
+import Rbgp.Accept.ProofsSim
+import Rbgp.Accept.Codec
 namespace Rbgp.Accept.Props
-open Rbgp.Accept Rbgp.Accept.Proofs Rbgp.Accept.ProofsNet
+open Rbgp.Accept Rbgp.Accept.Proofs Rbgp.Accept.ProofsNet Rbgp.Accept.ProofsNeg Rbgp.Accept.ProofsCfg
+open Rbgp.Accept.ProofsHist Rbgp.Accept.ProofsSim
 
 /-- **contains_iff_cover.**  For a well-formed prefix (same address family, mask within the address
     length, octets < 256) `IpNet::contains` does not panic and answers exactly "the first `mask`
@@ -75,5 +81,312 @@ theorem gr_negotiation_symmetric (l r : List Cap) :
     (∀ f, f ∈ Spec.grFams (negotiateGr l r) ↔ f ∈ Spec.grFams (negotiateGr r l)) ∧
     ((negotiateGr l r).map (·.notif) = (negotiateGr r l).map (·.notif)) :=
   gr_symmetric l r
+
+
+/-- LLGR: without a family listed twice both ends put the same families into force (with a
+    duplicate they may not: open finding F16d, witness below) -/
+theorem llgr_negotiation_symmetric (l r : List Cap) (hl : Spec.llgrDup l = false) (hr : Spec.llgrDup r = false) (f : Family) :
+    f ∈ Spec.llgrFams (negotiateLlgr l r) ↔ f ∈ Spec.llgrFams (negotiateLlgr r l) :=
+  ⟨llgr_sym_of_nodup l r hl hr f, llgr_sym_of_nodup r l hr hl f⟩
+
+def llgr_symmetric_full : Prop :=
+  ∀ (l r : List Cap) (f : Family), f ∈ Spec.llgrFams (negotiateLlgr l r) ↔ f ∈ Spec.llgrFams (negotiateLlgr r l)
+
+/-- F16d: one end has LLGR in force for the family, the other has not -/
+theorem llgr_symmetric_full_fails : ¬ llgr_symmetric_full := by
+  intro h
+  have := (h [.llgr [(65537, 0, 0), (65537, 0, 5)]] [.llgr [(65537, 0, 0)]] 65537).mp (by decide)
+  revert this; decide
+
+/-! ## configured or inherited parameters, role -/
+
+/-- **params_inherited.**  What `add_peer` stores for a configured neighbour — expected AS, hold
+    time, advertised capabilities, prefix limits, send-max, export policy, RS / RR-client flags and
+    the derived role — is the neighbour's own setting where it has one and its peer group's
+    otherwise (`Spec.wantStatic`); `g?` is the group `apply_peer_group` was given, if any. -/
+theorem params_inherited (asn rid : Nat) (confed : Option (Nat × List Nat)) (hc : confedIdOk confed)
+    (p : Params) (hd : p.dyn = false) (g? : Option Group) :
+    let resolved := match g? with | some g => applyPeerGroup p g | none => p
+    let cfg := build (confedAdjust asn confed resolved) asn
+    ∀ e ∈ Spec.cfgOk ⟨asn, rid, confed⟩ (Spec.wantStatic p g?) p.addr.isV6 cfg (peerRole cfg confed), e.1 = true := by
+  cases g? with
+  | none =>
+    simp only
+    have := cfgOk_build asn rid confed p hc
+    rw [want_noGroup p hd] at this; exact this
+  | some g =>
+    simp only
+    have := cfgOk_build asn rid confed (applyPeerGroup p g) hc
+    rw [want_applyPeerGroup p g hd] at this; exact this
+
+/-- a dynamic neighbour takes every parameter from the group whose prefix admitted it -/
+theorem params_inherited_dynamic (asn rid : Nat) (confed : Option (Nat × List Nat)) (hc : confedIdOk confed)
+    (g : Group) (a : Ip) :
+    let cfg := build (confedAdjust asn confed (paramsOfGroup g a)) asn
+    ∀ e ∈ Spec.cfgOk ⟨asn, rid, confed⟩ (Spec.wantDynamic g) a.isV6 cfg (peerRole cfg confed), e.1 = true := by
+  have := cfgOk_build asn rid confed (paramsOfGroup g a) hc
+  rw [want_dynamic] at this; exact this
+
+/-- **role_derivation_spec.**  RS client if so configured; otherwise iBGP (RR client if flagged)
+    iff the configured expected AS is the AS this speaker presents to the neighbour, confederation
+    eBGP iff it is a member AS, eBGP otherwise (no requirement when no expected AS is configured). -/
+theorem role_derivation_spec (asn rid : Nat) (confed : Option (Nat × List Nat)) (hc : confedIdOk confed) (p : Params) :
+    Spec.roleOk ⟨asn, rid, confed⟩ (wantOfParams p) (peerRole (build (confedAdjust asn confed p) asn) confed) = true :=
+  roleOk_build asn rid confed p hc
+
+/-- F16b witness: inside a confederation whose member list omits the local AS, a neighbour in our
+    own AS is internal -/
+example : peerRole (build (confedAdjust 65001 (some (65000, [65002]))
+    { addr := ⟨[127, 0, 0, 5]⟩, expected := 65001, localAsn := 0, hold := 180, passive := false, rs := false
+      rrClient := false, cluster := none, adminDown := false, dyn := false, fams := [], sm := [], pl := []
+      gr := none, llgr := none, pol := none }) 65001) (some (65000, [65002])) = .ibgp := by decide
+
+/-! ## histories -/
+
+/-- states reachable from a configuration by connect / disconnect / enable / disable / delete /
+    shutdown / reset in any order and direction -/
+inductive Reach (g : GlobalCfg) (groups : List Group) (peers : List PeerCase) : St → Prop where
+  | init : Reach g groups peers (setupPeers (initSt g groups) peers).1
+  | step {st st' : St} {op : Op} {r : Res} {b : Bool} :
+      Reach g groups peers st → step st op = .ok (st', r, b) → Reach g groups peers st'
+
+theorem reach_inv (g : GlobalCfg) (groups : List Group) (peers : List PeerCase)
+    (hd : ∀ pc ∈ peers, pc.params.dyn = false) (st : St) (h : Reach g groups peers st) : Inv st := by
+  induction h with
+  | init => exact (setup_inv peers _ (inv_init g groups) rfl (by simp [initSt]) hd).1
+  | step _ hs ih => exact inv_step _ _ ih _ _ _ hs
+
+/-- **dynamic_peer_gc.**  In every reachable state a dynamic neighbour that is in the table has a
+    connection that has not ended: its state disappears when its last connection ends (and is
+    never left behind). -/
+theorem dynamic_peer_gc (g : GlobalCfg) (groups : List Group) (peers : List PeerCase)
+    (hd : ∀ pc ∈ peers, pc.params.dyn = false) (st : St) (h : Reach g groups peers st) :
+    ∀ e ∈ st.peers, e.2.cfg.dyn = true → ∃ s ∈ st.live, s.addr = e.1 := by
+  intro e he hdy
+  have hi := reach_inv g groups peers hd st h
+  obtain ⟨s, hs, hc⟩ := hi.dyn e he hdy
+  exact ⟨s, hs, hi.core.owner s hs e he hc⟩
+
+/-- the same, read at the moment the last connection ends -/
+theorem dynamic_peer_removed_with_last_connection (g : GlobalCfg) (groups : List Group) (peers : List PeerCase)
+    (hd : ∀ pc ∈ peers, pc.params.dyn = false) (st : St) (h : Reach g groups peers st) (sid : Nat) (a : Ip)
+    (hnone : ∀ s ∈ (disconnect st sid).1.live, s.addr ≠ a) :
+    ∀ p, plookup a (disconnect st sid).1.peers = some p → p.cfg.dyn = false := by
+  intro p hp
+  have h' : Reach g groups peers (disconnect st sid).1 := Reach.step (op := .disc sid) h rfl
+  cases hdy : p.cfg.dyn with
+  | false => rfl
+  | true =>
+    obtain ⟨s, hs, hsa⟩ := dynamic_peer_gc g groups peers hd _ h' (a, p) (plookup_mem _ _ _ hp) hdy
+    exact absurd hsa (hnone s hs)
+
+/-- **accept_iff.**  `accept_connection` turns a connection into a session exactly when the remote
+    address is a neighbour in the table that is administratively up and whose close-channel slot
+    for that direction is free, or is not in the table and lies inside a dynamic prefix of some
+    group (prefix containment = `Spec.covers`, by `contains_iff_cover`). -/
+theorem accept_iff (st : St) (a : Ip) (role : Role) (hwf : WFGroups st.groups) (ha : bytesOk a.bytes) :
+    (∃ st' r b, acceptConnection st a role = .ok (st', r, b) ∧ Spec.isAccept r = true) ↔
+    ((∃ p, plookup a st.peers = some p ∧ p.adminDown = false ∧ (st.ctx p.ctx).get role = none) ∨
+     (plookup a st.peers = none ∧ ∃ g ∈ st.groups, ∃ n ∈ g.nets, Spec.covers n a = true)) := by
+  have hcov : (∃ g ∈ st.groups, ∃ n ∈ g.nets, Spec.covers n a = true) ↔ Spec.coveringGroups st.groups a ≠ [] := by
+    constructor
+    · rintro ⟨g, hg, n, hn, hc⟩ hnil
+      have : g ∈ Spec.coveringGroups st.groups a := by
+        simp only [Spec.coveringGroups, List.mem_filter, List.any_eq_true]
+        exact ⟨hg, n, hn, hc⟩
+      rw [hnil] at this; simp at this
+    · intro hne
+      cases hh : Spec.coveringGroups st.groups a with
+      | nil => exact absurd hh hne
+      | cons g t =>
+        have : g ∈ Spec.coveringGroups st.groups a := by rw [hh]; simp
+        simp only [Spec.coveringGroups, List.mem_filter, List.any_eq_true] at this
+        obtain ⟨hg, n, hn, hc⟩ := this
+        exact ⟨g, hg, n, hn, hc⟩
+  unfold acceptConnection
+  cases hl : plookup a st.peers with
+  | some p =>
+    simp only [reduceCtorEq, false_and, or_false, Option.some.injEq, exists_eq_left']
+    by_cases had : p.adminDown = true
+    · simp [had, Spec.isAccept]
+    · have had' : p.adminDown = false := by cases h : p.adminDown <;> simp_all
+      by_cases hs : ((st.ctx p.ctx).get role).isSome = true
+      · have : (st.ctx p.ctx).get role ≠ none := by cases h : (st.ctx p.ctx).get role <;> simp_all
+        simp [had', hs, Spec.isAccept, this]
+      · have hn : (st.ctx p.ctx).get role = none := by cases h : (st.ctx p.ctx).get role <;> simp_all
+        simp only [had', Bool.false_eq_true, if_false, hs, hn, and_self, iff_true]
+        exact ⟨_, _, _, rfl, by rw [openSession_res]; rfl⟩
+  | none =>
+    simp only [reduceCtorEq, false_and, exists_false, false_or, true_and, bind, Bind.bind,
+      matching_eq st.groups a hwf ha, hcov]
+    match hc : Spec.coveringGroups st.groups a with
+    | [] =>
+      simp only [pure, Out.ok.injEq, Prod.mk.injEq, ne_eq, not_true_eq_false, iff_false, not_exists, not_and]
+      rintro st' r b ⟨_, rfl, _⟩; simp [Spec.isAccept]
+    | [g] =>
+      simp only [ne_eq, reduceCtorEq, not_false_eq_true, iff_true]
+      obtain ⟨st', r, b, hr, _⟩ := accept_groups st a role hwf ha
+      unfold acceptConnection at hr
+      simp only [hl, bind, Bind.bind, matching_eq st.groups a hwf ha, hc] at hr
+      cases h1 : addPeer st (paramsOfGroup g a) with
+      | none => simp [h1] at hr
+      | some st1 =>
+        simp only [h1] at hr ⊢
+        cases h2 : plookup a st1.peers with
+        | none => simp [h2] at hr
+        | some p => exact ⟨_, _, _, rfl, by rw [openSession_res]; rfl⟩
+    | g1 :: g2 :: rest =>
+      simp only [ne_eq, reduceCtorEq, not_false_eq_true, iff_true]
+      exact ⟨st, _, true, rfl, rfl⟩
+
+/-- an occupied slot is a connection of that neighbour and direction that has not ended -/
+theorem slot_is_connection (st : St) (hi : Inv st) (a : Ip) (p : Peer) (role : Role) (sid : Nat)
+    (hp : plookup a st.peers = some p) (hs : (st.ctx p.ctx).get role = some sid) :
+    ∃ s ∈ st.live, s.addr = a ∧ s.role = role := by
+  obtain ⟨s, hs1, _, hs3, hs4⟩ := hi.core.slotLive p.ctx role sid hs
+  exact ⟨s, hs1, hi.core.owner s hs1 (a, p) (plookup_mem _ _ _ hp) hs3, hs4⟩
+
+/-- the statement one would like: a configured neighbour is accepted iff it is up and has NO
+    other connection in that direction -/
+def accept_iff_full : Prop :=
+  ∀ (g : GlobalCfg) (groups : List Group) (peers : List PeerCase) (st : St), Reach g groups peers st →
+    ∀ (a : Ip) (role : Role) (p : Peer), plookup a st.peers = some p →
+      ((∃ st' r b, acceptConnection st a role = .ok (st', r, b) ∧ Spec.isAccept r = true) ↔
+        (p.adminDown = false ∧ ¬ ∃ s ∈ st.live, s.addr = a ∧ s.role = role))
+
+/-- proved part: it holds whenever every unfinished connection of the neighbour and direction
+    still sits in its slot (i.e. none has been told to close and not finished yet) -/
+theorem accept_iff_partial (st : St) (hi : Inv st) (hwf : WFGroups st.groups) (a : Ip) (ha : bytesOk a.bytes)
+    (role : Role) (p : Peer) (hp : plookup a st.peers = some p)
+    (hslot : ∀ s ∈ st.live, s.addr = a → s.role = role → (st.ctx p.ctx).get role = some s.sid) :
+    ((∃ st' r b, acceptConnection st a role = .ok (st', r, b) ∧ Spec.isAccept r = true) ↔
+      (p.adminDown = false ∧ ¬ ∃ s ∈ st.live, s.addr = a ∧ s.role = role)) := by
+  rw [accept_iff st a role hwf ha]
+  simp only [hp, Option.some.injEq, exists_eq_left', reduceCtorEq, false_and, or_false]
+  constructor
+  · rintro ⟨h1, h2⟩
+    refine ⟨h1, ?_⟩
+    rintro ⟨s, hs, hsa, hsr⟩
+    rw [hslot s hs hsa hsr] at h2; cases h2
+  · rintro ⟨h1, h2⟩
+    refine ⟨h1, ?_⟩
+    cases hg : (st.ctx p.ctx).get role with
+    | none => rfl
+    | some sid => exact absurd (slot_is_connection st hi a p role sid hp hg) h2
+
+/-- F16c: after `shutdown` the slot is free although the closing connection has not finished -/
+def f16cPeer : PeerCase :=
+  { params := { addr := ⟨[127, 0, 0, 5]⟩, expected := 0, localAsn := 0, hold := 180, passive := false, rs := false
+                rrClient := false, cluster := none, adminDown := false, dyn := false, fams := [], sm := [], pl := []
+                gr := none, llgr := none, pol := none }, group := none }
+def f16cState : St :=
+  match runOpsState (setupPeers (initSt ⟨65001, 1, none⟩ []) [f16cPeer]).1
+      [.connect ⟨[127, 0, 0, 5]⟩ .passive, .shutdown ⟨[127, 0, 0, 5]⟩] with
+  | some st => st
+  | none => initSt ⟨65001, 1, none⟩ []
+where
+  runOpsState (st : St) : List Op → Option St
+    | [] => some st
+    | op :: rest => match step st op with
+        | .ok (st', _, _) => runOpsState st' rest
+        | .panic => none
+
+theorem f16c_reachable : Reach ⟨65001, 1, none⟩ [] [f16cPeer] f16cState := by
+  have h0 : Reach ⟨65001, 1, none⟩ [] [f16cPeer] (setupPeers (initSt ⟨65001, 1, none⟩ []) [f16cPeer]).1 := Reach.init
+  have h1 := Reach.step (op := .connect ⟨[127, 0, 0, 5]⟩ .passive) h0 rfl
+  exact Reach.step (op := .shutdown ⟨[127, 0, 0, 5]⟩) h1 rfl
+
+theorem accept_iff_full_fails : ¬ accept_iff_full := by
+  intro h
+  have := (h ⟨65001, 1, none⟩ [] [f16cPeer] f16cState f16c_reachable ⟨[127, 0, 0, 5]⟩ .passive
+    { cfg := build f16cPeer.params 65001, adminDown := false, ctx := 0 } (by decide)).mp
+    ⟨_, _, _, rfl, by decide⟩
+  exact this.2 (by decide)
+
+/-! ## master theorem -/
+
+def CaseWF : Case → Prop
+  | .neg .. => True
+  | .contains n a => bytesOk n.bytes ∧ bytesOk a.bytes
+  | .hist g groups peers ops => HistWF g groups peers ops
+
+/-- **check_run_ok.**  The C16 reference checker accepts every observation the model produces —
+    for every pair of capability lists, every prefix / address, every configuration and every
+    history — with exactly two exceptions, both recorded as open findings on the real code:
+    a connection accepted while a closing connection of the same direction still exists (F16c) and
+    LLGR with a family listed twice (F16d). -/
+theorem check_run_ok (c : Case) (hwf : CaseWF c) :
+    Spec.check c (run c) = .ok ∨
+    (∃ k, Spec.check c (run c) = .fail k "accepted-while-closing-connection-same-direction") ∨
+    Spec.check c (run c) = .fail 0 "llgr-not-symmetric-duplicate-entries" := by
+  cases c with
+  | neg l r sm =>
+    rcases checkNeg_model l r sm with h | h
+    · exact Or.inl h
+    · exact Or.inr (Or.inr h)
+  | contains n a =>
+    left
+    simp only [run, Spec.check]
+    by_cases hlen : n.bytes.length = a.bytes.length
+    · by_cases hm : n.mask ≤ 8 * n.bytes.length
+      · rw [contains_iff_cover n a hlen hm hwf.1 hwf.2]
+        simp [Spec.checkContains, Spec.maskInRange, hlen, hm]
+      · have hmr : Spec.maskInRange n = false := by simp [Spec.maskInRange, hm]
+        cases n.contains a <;> simp [Spec.checkContains, hmr, hlen]
+    · rw [(contains_other_family n a hlen).1]
+      simp [Spec.checkContains, hlen, (contains_other_family n a hlen).2]
+  | hist g groups peers ops =>
+    obtain ⟨h, hr⟩ := runHist_ok g groups peers ops hwf
+    simp only [run, hr, Spec.check]
+    rcases checkHist_model g groups peers ops hwf h hr with hk | hk
+    · exact Or.inl hk
+    · exact Or.inr (Or.inl hk)
+
+/-- the drivers run the model and the oracle only on cases passing the run-time guard
+    `Codec.wfCase`, and the guard implies the hypothesis of `check_run_ok` -/
+theorem wfCase_sound (c : Case) (h : Codec.wfCase c = true) : CaseWF c := by
+  have oct : ∀ l, Codec.octetsOk l = true → bytesOk l := by
+    intro l hl x hx
+    simp only [Codec.octetsOk, List.all_eq_true, decide_eq_true_eq] at hl
+    exact hl x hx
+  cases c with
+  | neg l r sm => trivial
+  | contains n a =>
+    simp only [Codec.wfCase, Bool.and_eq_true] at h
+    exact ⟨oct _ h.1, oct _ h.2⟩
+  | hist g groups peers ops =>
+    simp only [Codec.wfCase, Bool.and_eq_true, List.all_eq_true] at h
+    obtain ⟨⟨⟨h1, h2⟩, h3⟩, h4⟩ := h
+    refine ⟨?_, ?_, ?_, ?_⟩
+    · unfold confedIdOk
+      cases hc : g.confed with
+      | none => trivial
+      | some c => obtain ⟨id, m⟩ := c; rw [hc] at h1; simpa using h1
+    · intro gr hgr n hn
+      have := h2 gr hgr n hn
+      simp only [Bool.and_eq_true, decide_eq_true_eq] at this
+      exact ⟨this.1, oct _ this.2⟩
+    · intro pc hpc
+      have := h3 pc hpc
+      cases hd : pc.params.dyn <;> simp_all
+    · intro op hop a r he
+      have := h4 op hop
+      subst he
+      exact oct _ this
+
+/-- non-vacuity of `CaseWF`: a history with a dynamic group, a configured neighbour and all operations -/
+example : CaseWF (.hist ⟨65001, 1, some (65000, [65002])⟩
+    [{ name := "g1", asn := 65002, localAsn := 0, hold := some 30, passive := false, rs := false, rrClient := false
+       cluster := none, fams := [(65537, 3)], sm := [(65537, 2)], gr := none, llgr := none, nets := [⟨[127, 0, 2, 0], 24⟩] }]
+    [f16cPeer] [.connect ⟨[127, 0, 2, 7]⟩ .passive, .disc 0, .disable ⟨[127, 0, 0, 5]⟩]) := by
+  refine ⟨by simp [confedIdOk], ?_, ?_, ?_⟩
+  · intro g hg n hn
+    simp at hg; subst hg; simp at hn; subst hn
+    exact ⟨by decide, by intro x hx; simp at hx; rcases hx with rfl | rfl | rfl | rfl <;> decide⟩
+  · intro pc hpc; simp at hpc; subst hpc; rfl
+  · intro op hop a r he
+    simp at hop
+    rcases hop with rfl | rfl | rfl <;> cases he
+    intro x hx; simp at hx; rcases hx with rfl | rfl | rfl | rfl <;> decide
 
 end Rbgp.Accept.Props
